@@ -307,7 +307,7 @@ def records_of(case, key):
 
 
 def correspondence(ctx: Ctx, backends):
-    n = 22 if ctx.quick else 80
+    n = 22 if ctx.quick else 60
     if ctx.replay:
         rp = json.load(open(ctx.replay))
         cases = [rp["case"]] if "case" in rp and "tables" in rp["case"] else []
